@@ -89,7 +89,8 @@ def dof_maps(s0, s1, pi, locs):
 def relation_error(a0, a1, rt, rr, st, sr):
     ref = (st[:, None] * sr[None, :]) * a0
     got = a1[np.ix_(rt, rr)]
-    return float(np.abs(got - ref).max()) / max(float(np.abs(a0).max()), 1e-300)
+    # floor: K and K' vanish identically on planar screens (only rounding noise is assembled)
+    return float(np.abs(got - ref).max()) / max(float(np.abs(a0).max()), 1e-4)
 
 
 # ---- correspondence ----------------------------------------------------------------------------------------------
@@ -278,10 +279,7 @@ def run_search(cfg):
                 fails.append({"signature": "C03:%s raises %s" % (name, type(e).__name__), "what": repr(e),
                               "data": {"grid": gname, "dom": [dk, opts_d], "dual": [tk, opts_t]}})
                 continue
-            scale0 = float(np.abs(a0).max())
-            if scale0 == 0:
-                out["skipped"] += 1
-                continue
+            scale0 = max(float(np.abs(a0).max()), 1e-4)    # floor: K, K' vanish identically on planar screens
             ident_t = np.arange(a0.shape[0])
             ident_d = np.arange(a0.shape[1])
             ones_t, ones_d = np.ones(a0.shape[0]), np.ones(a0.shape[1])
